@@ -12,6 +12,7 @@ def strategy(draw):
     spec = draw(gc.system(max_moltypes=2, max_res=5, max_total_mol=3))
     mode = draw(st.sampled_from(["connected", "atom", "atom", "residue"]))
     spec = copy.deepcopy(spec)
+    pristine = copy.deepcopy(spec["moltypes"])
     used = {n for n, _ in spec["molecules"]}
     mts = [mt for mt in spec["moltypes"] if mt["name"] in used]
     if mode == "atom":
@@ -41,6 +42,20 @@ def strategy(draw):
             k = draw(st.integers(0, len(mt["res_edges"]) - 1))
             spec["broken"] = {"mol": mt["name"], "edge": mt["res_edges"][k]}
             mt["res_edges"] = [e for i, e in enumerate(mt["res_edges"]) if i != k]
+    if mode != "connected" and draw(st.integers(0, 2)) > 0:
+        # the disconnected molecule is not the first one of [ molecules ]: an intact copy of the same
+        # molecule type (under another name) or another intact type comes first
+        bad = spec["broken"]["mol"]
+        others = [e for e in spec["molecules"] if e[0] != bad]
+        if others and draw(st.booleans()):
+            first = others[0]
+            spec["molecules"] = [first] + [e for e in spec["molecules"] if e is not first]
+        else:
+            twin = copy.deepcopy([mt for mt in pristine if mt["name"] == bad][0])
+            twin["name"] = "MZ"
+            spec["moltypes"].append(twin)
+            spec["molecules"] = [["MZ", draw(st.integers(1, 2))]] + spec["molecules"]
+        spec["bad_not_first"] = True
     edge = gc.dilute_box(spec)
     spec["opts"] = {"box": [edge, edge, edge]}
     spec["half"] = "gen_coords"
@@ -63,4 +78,6 @@ def check(spec, ctx):
                         f"a molecule with an unconnected {mode} ({spec.get('broken')}) was built without an error")
     if not isinstance(res.exc, (IOError, OSError)):
         raise crash(f"gen_coords:disconnected_{mode}_crash", res.exc)
+    if spec.get("bad_not_first"):
+        ctx.label("coords_disconnected_not_first")
     ctx.nontrivial = True
